@@ -76,6 +76,14 @@ func operandKind(v ssa.Value) string {
 }
 
 func cmpAtom(op token.Token, x, y string) string {
+	// what a computed value was computed by is already recorded by its own atom; here only its role counts
+	gen := func(k string) string {
+		if strings.HasPrefix(k, "call:") || k == "dyncall" || k == "var" || k == "expr" || k == "recv" || k == "v" {
+			return "v"
+		}
+		return k
+	}
+	x, y = gen(x), gen(y)
 	// canonical under operand swap and negation
 	forms := []string{}
 	add := func(o token.Token, a, b string) { forms = append(forms, fmt.Sprintf("%s(%s,%s)", o, a, b)) }
@@ -107,10 +115,19 @@ type atomSink struct {
 
 func (a atomSink) add(k string) { a.m[k+a.suffix]++ }
 
+var sibBaseline map[string]bool
+
 func funcAtoms(fn *ssa.Function) map[string]int {
+	if sibBaseline == nil {
+		sibBaseline = loadBaseline(BaselineFile)
+		if sibBaseline == nil {
+			sibBaseline = map[string]bool{}
+		}
+	}
 	out := map[string]int{}
-	var visit func(f *ssa.Function)
-	visit = func(f *ssa.Function) {
+	var visitAt func(f *ssa.Function, base, level int)
+	visit := func(f *ssa.Function) { visitAt(f, 0, 0) }
+	visitAt = func(f *ssa.Function, base, level int) {
 		reach := blockReach(f)
 		depthOf := map[*ssa.BasicBlock]int{}
 		for _, b := range f.Blocks {
@@ -133,12 +150,12 @@ func funcAtoms(fn *ssa.Function) map[string]int {
 		real := out
 		eachInstr(f, func(in ssa.Instruction) {
 			// atoms carry the number of conditions they depend on: an operation moved under (or out of) a condition in one sibling is a difference
-			out := atomSink{real, fmt.Sprintf(" @%d", depthOf[in.Block()])}
+			out := atomSink{real, fmt.Sprintf(" @%d", base+depthOf[in.Block()])}
 			switch x := in.(type) {
 			case *ssa.Phi:
 				// constants assigned to a variable on some path
 				for _, e := range x.Edges {
-					if k := operandKind(e); strings.HasPrefix(k, "const:") || k == "nil" {
+					if k := operandKind(e); strings.HasPrefix(k, "const:") {
 						real["assign "+k]++
 					}
 				}
@@ -172,6 +189,13 @@ func funcAtoms(fn *ssa.Function) map[string]int {
 			case ssa.CallInstruction:
 				cc := x.Common()
 				n := calleeName(cc)
+				// a helper that did not exist on the confirmed tree is looked through (its operations count as the caller's)
+				if _, isCall := in.(*ssa.Call); isCall && len(sibBaseline) > 0 && level < 3 {
+					if callee := staticCallee(cc); callee != nil && callee.Blocks != nil && callee.Pkg == f.Pkg && callee.Parent() == nil && !sibBaseline[n] {
+						visitAt(callee, base+depthOf[in.Block()], level+1)
+						return
+					}
+				}
 				if n == "" {
 					n = "dyn:" + operandKind(cc.Value)
 				}
@@ -211,6 +235,9 @@ func funcAtoms(fn *ssa.Function) map[string]int {
 				}
 				out.add(s)
 			case *ssa.Return:
+				if level > 0 {
+					break // a looked-through helper's returns are not the caller's
+				}
 				var rs []string
 				for i := range x.Results {
 					k := operandKind(retVal(x, i))
@@ -221,7 +248,7 @@ func funcAtoms(fn *ssa.Function) map[string]int {
 				}
 				out.add("return("+strings.Join(rs, ",")+")")
 			case *ssa.MakeClosure:
-				visit(x.Fn.(*ssa.Function))
+				visitAt(x.Fn.(*ssa.Function), base, level)
 			case *ssa.Panic:
 				out.add("panic")
 			case *ssa.Range, *ssa.Next:
@@ -280,6 +307,43 @@ func siblingDiff(c *Ctx, p siblingPair) (onlyA, onlyB []string, ok bool) {
 			onlyB = append(onlyB, fmt.Sprintf("%dx %s", d, k))
 		}
 	}
+	// delegation to one common function: both siblings call the same callee and differ only in its constant arguments
+	// (the body was merged into a shared helper, so agreement holds by construction)
+	calleeOf := func(d string) string {
+		i := strings.Index(d, "x call ")
+		if i < 0 {
+			return ""
+		}
+		rest := d[i+len("x call "):]
+		if j := strings.Index(rest, "("); j >= 0 {
+			return rest[:j]
+		}
+		return ""
+	}
+	if len(onlyA) == len(onlyB) && len(onlyA) > 0 {
+		same := true
+		ca, cb := map[string]int{}, map[string]int{}
+		for _, d := range onlyA {
+			if calleeOf(d) == "" {
+				same = false
+			}
+			ca[calleeOf(d)]++
+		}
+		for _, d := range onlyB {
+			if calleeOf(d) == "" {
+				same = false
+			}
+			cb[calleeOf(d)]++
+		}
+		for k, n := range ca {
+			if cb[k] != n || !strings.HasPrefix(k, short(fa.Pkg.Pkg.Path())+".") || sibBaseline[k] || len(sibBaseline) == 0 {
+				same = false // only a helper that did not exist on the confirmed tree counts as "merged body"
+			}
+		}
+		if same {
+			return nil, nil, true
+		}
+	}
 	sort.Strings(onlyA)
 	sort.Strings(onlyB)
 	return onlyA, onlyB, true
@@ -313,7 +377,7 @@ var (
 	}
 	sibDatabase = []siblingPair{
 		{A: "database.(*Interface).Put", B: "database.(*Interface).PutNew", Rename: map[string]string{}, Why: "PutNew is Put plus a metadata reset",
-			Allow: []string{"call database/record.Meta.Reset(", "cmp ==(call:database/record.Record.Meta,nil)", "call database/record.Record.Meta("}},
+			Allow: []string{"call database/record.Meta.Reset(", "cmp ==(nil,v)", "call database/record.Record.Meta("}},
 		{A: "database.(*Controller).Maintain", B: "database.(*Controller).MaintainThorough", Rename: map[string]string{"Maintainer.Maintain": "Maintainer.MaintainThorough"}, Why: "maintenance entry points"},
 	}
 	sibAccessor = []siblingPair{}
